@@ -19,6 +19,7 @@ From BP Require Import Proofs.C04Def Proofs.C04ScalarP Proofs.C20MsgDef Proofs.C
      Proofs.C20MsgBuiltJ Proofs.C20MsgBuiltC Proofs.C20MsgAlias.
 From BP Require Import Base.Prelude Model.Varint Model.Scalar Model.Enum Spec.Varint.
 From BP Require Import Proofs.EnumP.
+From BP Require Proofs.C20GapA Proofs.C20GapB Model.C20GapDefs Model.C01Reach Model.C01Parse Model.C07Ops Model.History Model.Len.
 
 (* the namespace never holds a name twice, so the member list has distinct names whatever the body;
    a body with distinct non-dunder names is its own member list *)
@@ -614,3 +615,304 @@ Proof.
   split; [right; exists [x52; x4f; x55; x47; x45]; split; [reflexivity|vm_compute; right; right; left; reflexivity]|].
   vm_compute. repeat split; reflexivity.
 Qed.
+
+(* ================================================================== gap closing against the property text
+   (clause-by-clause table: header of Proofs/C20GapA.v).  First group: the enum class and the scalar / element level. *)
+
+(* "THE ONE canonical member object": m is a table object EXACTLY when its number is declared and m is (first declared name, number);
+   hence one object per number *)
+Theorem C20_in_table_iff : forall body m,
+  in_table (class_of body) m = true <->
+  In (snd m) (map snd (members_of body)) /\ m = canon (members_of body) (snd m).
+Proof. exact C20GapA.in_table_iff. Qed.
+Print Assumptions C20_in_table_iff.
+
+Theorem C20_one_object_per_number : forall body m m',
+  in_table (class_of body) m = true -> in_table (class_of body) m' = true -> snd m = snd m' -> m = m'.
+Proof. exact C20GapA.one_object_per_number. Qed.
+Print Assumptions C20_one_object_per_number.
+
+Theorem C20_aliases_same_object : forall body n n' v,
+  In (n, v) (members_of body) -> In (n', v) (members_of body) ->
+  getitem (class_of body) n = getitem (class_of body) n' /\
+  exists m, getitem (class_of body) n = Ok m /\ in_table (class_of body) m = true /\ snd m = v.
+Proof. exact C20GapA.aliases_same_object. Qed.
+Print Assumptions C20_aliases_same_object.
+
+(* converses: E(v) returns m iff v is declared and m is the canonical member; it raises ValueError, and nothing else, iff v is
+   undeclared; E[n] / E.from_string(n) return m iff n is declared for some v and m is the canonical member of v *)
+Theorem C20_call_iff : forall body v m,
+  call (class_of body) v = Ok m <-> In v (map snd (members_of body)) /\ m = canon (members_of body) v.
+Proof. exact C20GapA.call_iff. Qed.
+Print Assumptions C20_call_iff.
+
+Theorem C20_call_err_iff : forall body v k,
+  call (class_of body) v = Err k <-> ~ In v (map snd (members_of body)) /\ k = EValue.
+Proof. exact C20GapA.call_err_iff. Qed.
+Print Assumptions C20_call_err_iff.
+
+Theorem C20_getitem_iff : forall body n m,
+  getitem (class_of body) n = Ok m <-> exists v, In (n, v) (members_of body) /\ m = canon (members_of body) v.
+Proof. exact C20GapA.getitem_iff. Qed.
+Print Assumptions C20_getitem_iff.
+
+Theorem C20_from_string_iff : forall body n m,
+  from_string (class_of body) n = Ok m <-> exists v, In (n, v) (members_of body) /\ m = canon (members_of body) v.
+Proof. exact C20GapA.from_string_iff. Qed.
+Print Assumptions C20_from_string_iff.
+
+(* "whose name and number are those declared": the number always; the NAME of the member found under n is n exactly when n is the
+   first name declared for that number (an alias finds the member carrying the first name); it is always a declared name of the number *)
+Theorem C20_alias_name_refuted :
+  exists body n v m, In (n, v) (members_of body) /\ getitem (class_of body) n = Ok m /\ fst m <> Some n /\ snd m = v.
+Proof. exact C20GapA.alias_name_refuted. Qed.
+Print Assumptions C20_alias_name_refuted.
+
+Theorem C20_name_kept_iff : forall body n v,
+  In (n, v) (members_of body) ->
+  (getitem (class_of body) n = Ok (Some n, v) <-> first_name (members_of body) v = Some n).
+Proof. exact C20GapA.name_kept_iff. Qed.
+Print Assumptions C20_name_kept_iff.
+
+Theorem C20_lookup_name_declared : forall body n m,
+  getitem (class_of body) n = Ok m ->
+  exists n0, fst m = Some n0 /\ In (n0, snd m) (members_of body) /\ In (n, snd m) (members_of body).
+Proof. exact C20GapA.lookup_name_declared. Qed.
+Print Assumptions C20_lookup_name_declared.
+
+(* every entry point gives the same object: E(v), E[n], from_string, E.n, try_value, the binary decoder, from_dict on the name /
+   the number / what to_dict wrote, iteration, copy, deepcopy, and the default generator when v = 0 *)
+Theorem C20_lookups_agree : forall body n v,
+  In (n, v) (members_of body) -> int32 v ->
+  let c := class_of body in let M := canon (members_of body) v in
+  call c v = Ok M /\ getitem c n = Ok M /\ from_string c n = Ok M /\ getattr_cls c n = Ok M /\
+  try_value c v = M /\ enum_post c (v mod 2 ^ 64) = M /\
+  from_json_el c (JName n) = Ok M /\ from_json_el c (JNum v) = Ok M /\ from_json_el c (to_json_el c v) = Ok M /\
+  In M (iter c) /\ in_table c M = true /\ copy M = M /\ deepcopy M = M /\ snd M = v /\
+  (v = 0 -> enum_default c = M).
+Proof. exact C20GapA.lookups_agree. Qed.
+Print Assumptions C20_lookups_agree.
+
+(* defined / undefined is a dichotomy, seen the same way by every observer *)
+Theorem C20_open_iff : forall body v,
+  let c := class_of body in
+  let defined := In v (map snd (members_of body)) in
+  (fst (try_value c v) = None <-> ~ defined) /\
+  (in_table c (try_value c v) = true <-> defined) /\
+  (contains c (AMem (try_value c v)) = true <-> defined) /\
+  (call c v = Err EValue <-> ~ defined) /\
+  (call c v = Ok (try_value c v) <-> defined).
+Proof. exact C20GapA.open_iff. Qed.
+Print Assumptions C20_open_iff.
+
+(* "compares equal to that integer": to that one only *)
+Theorem C20_eq_int_iff : forall body v z, eq_int (try_value (class_of body) v) z = true <-> z = v.
+Proof. exact C20GapA.eq_int_iff. Qed.
+Print Assumptions C20_eq_int_iff.
+
+(* the int32 bound of the quantifier is exact: for EVERY integer v the number read back from the varint of v is v iff v is an int32 *)
+Theorem C20_roundtrip_number_iff : forall body v, snd (enum_post (class_of body) (v mod 2 ^ 64)) = v <-> int32 v.
+Proof. exact C20GapA.roundtrip_number_iff. Qed.
+Print Assumptions C20_roundtrip_number_iff.
+
+Theorem C20_out_of_range_refuted :
+  exists body v bs, ~ int32 v /\ enum_pre (try_value (class_of body) v) = Ok bs /\
+    load_varint bs = Ok (v mod 2 ^ 64, bs, []) /\
+    enum_post (class_of body) (v mod 2 ^ 64) = (None, - 2 ^ 31) /\
+    enum_post (class_of body) (v mod 2 ^ 64) <> try_value (class_of body) v.
+Proof. exact C20GapA.out_of_range_refuted. Qed.
+Print Assumptions C20_out_of_range_refuted.
+
+(* "keeps its number" as injectivity: two int32 numbers never share their bytes, two numbers never share their JSON element *)
+Theorem C20_binary_injective : forall body v v' bs,
+  int32 v -> int32 v' ->
+  enum_pre (try_value (class_of body) v) = Ok bs -> enum_pre (try_value (class_of body) v') = Ok bs -> v = v'.
+Proof. exact C20GapA.binary_injective. Qed.
+Print Assumptions C20_binary_injective.
+
+Theorem C20_json_injective : forall body v v',
+  to_json_el (class_of body) v = to_json_el (class_of body) v' -> v = v'.
+Proof. exact C20GapA.json_injective. Qed.
+Print Assumptions C20_json_injective.
+
+(* pickling: looking the unpickled member's number up again gives the original object (table member or open value) *)
+Theorem C20_pickle_recanon : forall body v,
+  let c := class_of body in let m := try_value c v in
+  try_value c (snd (pickle_roundtrip m)) = m /\
+  (in_table c m = true -> call c (snd (pickle_roundtrip m)) = Ok m) /\
+  fst (pickle_roundtrip m) = fst m.
+Proof. exact C20GapA.pickle_recanon. Qed.
+Print Assumptions C20_pickle_recanon.
+
+(* immutability, observationally: whatever was attempted before, every operation answers as on the fresh class; histories compose *)
+Theorem C20_history_invisible : forall cn c ops o, step cn (fst (run cn c ops)) o = step cn c o.
+Proof. exact C20GapA.history_invisible. Qed.
+Print Assumptions C20_history_invisible.
+
+Theorem C20_history_app : forall cn c ops1 ops2,
+  fst (run cn c (ops1 ++ ops2)) = c /\
+  snd (run cn c (ops1 ++ ops2)) = snd (run cn c ops1) ++ snd (run cn c ops2).
+Proof. exact C20GapA.history_app. Qed.
+Print Assumptions C20_history_app.
+
+(* AttributeError is the answer of the four mutators and of E.<undefined name>, and of nothing else *)
+Theorem C20_attribute_error_iff : forall cn body o,
+  snd (step cn (class_of body) o) = CE EAttribute <->
+  is_mutator o = true \/ C20GapA.undefined_getattr body o = true.
+Proof. exact C20GapA.attribute_error_iff. Qed.
+Print Assumptions C20_attribute_error_iff.
+
+(* non-vacuity of the first gap group: ex_body has the alias ROUGE of RED, negative numbers, the int32 bounds *)
+Example C20_gapA_nonvacuous :
+  in_table (class_of ex_body) (Some [x52; x45; x44], 1) = true /\ in_table (class_of ex_body) (Some [x52; x4f; x55; x47; x45], 1) = false /\
+  In ([x52; x45; x44], 1) (members_of ex_body) /\ In ([x52; x4f; x55; x47; x45], 1) (members_of ex_body) /\ int32 1 /\
+  getitem (class_of ex_body) [x52; x4f; x55; x47; x45] = Ok (Some [x52; x45; x44], 1) /\
+  first_name (members_of ex_body) 1 = Some [x52; x45; x44] /\
+  call (class_of ex_body) 5 = Err EValue /\ eq_int (try_value (class_of ex_body) 5) 5 = true /\ eq_int (try_value (class_of ex_body) 5) 6 = false /\
+  ~ int32 (2 ^ 31) /\ snd (enum_post (class_of ex_body) ((2 ^ 31) mod 2 ^ 64)) = - 2 ^ 31 /\
+  enum_pre (try_value (class_of ex_body) (-1)) = Ok [xff; xff; xff; xff; xff; xff; xff; xff; xff; x01] /\
+  to_json_el (class_of ex_body) 1 = JName [x52; x45; x44] /\
+  pickle_roundtrip (try_value (class_of ex_body) (-1)) = (Some [x4e; x45; x47], -1) /\
+  snd (step [x45] (class_of ex_body) (OGetattr [x58])) = CE EAttribute /\ C20GapA.undefined_getattr ex_body (OGetattr [x58]) = true /\
+  snd (step [x45] (class_of ex_body) (OGetitem [x58])) = CE EKey.
+Proof.
+  unfold int32. repeat split; try (vm_compute; reflexivity); try lia.
+  - vm_compute. right. left. reflexivity.
+  - vm_compute. right. right. left. reflexivity.
+Qed.
+
+(* ------------------------------------------------------------------ gap closing, second group: the message level
+   (Proofs/C20GapB.v).  enum_roundtrips sc m i e x v  names the conclusion of C20_roundtrip_message_binary: *)
+Theorem C20_enum_roundtrips_is : forall sc m i e x v,
+  C20GapB.enum_roundtrips sc m i e x v <->
+  (int32 v /\
+   field_member sc e (PInt v) = Some (canon (members_of (enum_body sc e)) v) /\
+   exists bs, enc_obj sc m = Ok bs /\
+     (Zlength bs < 2 ^ 64 ->
+      exists m', parse sc (ocls m) bs = Ok m' /\ read sc m' i = Ok x /\
+        (forall g, which_one_of m' g = which_one_of m g) /\ enc_obj sc m' = Ok bs)).
+Proof. intros. reflexivity. Qed.
+Print Assumptions C20_enum_roundtrips_is.
+
+(* the value hypothesis of C20_roundtrip_message_binary is met by EVERY object a history of public-API operations produces from Cls()
+   (constructor, setattr, nested assignment, reads, from_dict, copies, pickle, observers, m.parse(clean bytes): run7), under C01's decidable
+   conditions on the OPERATIONS: any enum field of such an object, in any of the five positions, holding any number, round-trips *)
+Theorem C20_roundtrip_binary_reachable : forall sc c ops m i f pos e x v,
+  c01_schema_ok sc = true ->
+  C01Reach.hist_ok C01Parse.op_value_ok_p sc (new sc c) ops = true -> C07Ops.run7 sc (new sc c) ops = Ok m ->
+  nth_error (cfields (get_class sc (ocls m))) i = Some f -> enum_position f = Some (pos, e) ->
+  read sc m i = Ok x -> holds_enum pos x v = true ->
+  C20GapB.enum_roundtrips sc m i e x v.
+Proof. exact C20GapB.roundtrip_binary_reachable. Qed.
+Print Assumptions C20_roundtrip_binary_reachable.
+
+(* the same from ANY state meeting C01's two conditions (e.g. a decoded message); the conditions hold again afterwards *)
+Theorem C20_roundtrip_binary_run : forall sc ops o m i f pos e x v,
+  c01_schema_ok sc = true -> c01_value_ok sc o = true -> sow_ok sc o = true ->
+  C01Reach.hist_ok C01Parse.op_reach_ok_p sc o ops = true -> C07Ops.run7 sc o ops = Ok m ->
+  nth_error (cfields (get_class sc (ocls m))) i = Some f -> enum_position f = Some (pos, e) ->
+  read sc m i = Ok x -> holds_enum pos x v = true ->
+  C20GapB.enum_roundtrips sc m i e x v /\ c01_value_ok sc m = true /\ sow_ok sc m = true.
+Proof. exact C20GapB.roundtrip_binary_run. Qed.
+Print Assumptions C20_roundtrip_binary_run.
+
+(* the int32 bound at the message level is exact: C01's value condition holds of  m = Cls(); m.f = v  EXACTLY for int32 v;
+   witness: m.s = 2^31 is stored, encoded, and comes back as -2^31 *)
+Theorem C20_value_ok_iff_int32 : forall sc c i f pos e k v,
+  c01_schema_ok sc = true ->
+  nth_error (cfields (get_class sc c)) i = Some f -> enum_position f = Some (pos, e) ->
+  (pos = PosMapValue -> scalar_in_range (key_type f) k = true) ->
+  (c01_value_ok sc (built sc c i pos k v) = true <-> int32 v).
+Proof. exact C20GapB.value_ok_iff_int32. Qed.
+Print Assumptions C20_value_ok_iff_int32.
+
+Theorem C20_message_out_of_range_refuted :
+  exists sc c i f pos e k v,
+    c01_schema_ok sc = true /\ nth_error (cfields (get_class sc c)) i = Some f /\ enum_position f = Some (pos, e) /\
+    ~ int32 v /\ read sc (built sc c i pos k v) i = Ok (PInt v) /\
+    exists bs m', enc_obj sc (built sc c i pos k v) = Ok bs /\ parse sc c bs = Ok m' /\ read sc m' i = Ok (PInt (- 2 ^ 31)).
+Proof. exact C20GapB.message_out_of_range_refuted. Qed.
+Print Assumptions C20_message_out_of_range_refuted.
+
+(* with C09: len(m) = |bytes(m)| for the built message in every position and for every int32 number *)
+Theorem C20_len_built : forall sc c i f pos e k v,
+  c01_schema_ok sc = true ->
+  nth_error (cfields (get_class sc c)) i = Some f -> enum_position f = Some (pos, e) ->
+  int32 v -> (pos = PosMapValue -> scalar_in_range (key_type f) k = true) ->
+  exists bs, enc_obj sc (built sc c i pos k v) = Ok bs /\ Len.len_obj sc (built sc c i pos k v) = Ok (Zlength bs).
+Proof. exact C20GapB.len_built. Qed.
+Print Assumptions C20_len_built.
+
+(* with C14: pickling a MESSAGE keeps what every enum field reads as (and the selected oneof member, and the bytes) *)
+Theorem C20_pickle_keeps_enum : forall sc m i f pos e x v,
+  c01_schema_ok sc = true -> c01_value_ok sc m = true ->
+  nth_error (cfields (get_class sc (ocls m))) i = Some f -> enum_position f = Some (pos, e) ->
+  read sc m i = Ok x -> holds_enum pos x v = true ->
+  (forall bs, enc_obj sc m = Ok bs -> Zlength bs < 2 ^ 64) ->
+  exists m', History.pickle_rt sc m = Ok m' /\ read sc m' i = Ok x /\ (forall g, which_one_of m' g = which_one_of m g) /\
+             enc_obj sc m' = enc_obj sc m.
+Proof. exact C20GapB.pickle_keeps_enum. Qed.
+Print Assumptions C20_pickle_keeps_enum.
+
+(* evolution of the enum DEFINITION (the open set, seen from schema evolution), scalar level = the step shared by all five positions:
+   a reader / writer whose definition differs in any way reads the number, re-emits the same bytes, and the writer reads its own value back *)
+Theorem C20_enum_evolution_scalar : forall body body' v,
+  int32 v ->
+  exists bs,
+    enum_pre (try_value (class_of body) v) = Ok bs /\
+    (forall rest, load_varint (bs ++ rest) = Ok (v mod 2 ^ 64, bs, rest)) /\
+    snd (enum_post (class_of body') (v mod 2 ^ 64)) = v /\
+    enum_post (class_of body') (v mod 2 ^ 64) = try_value (class_of body') v /\
+    enum_pre (enum_post (class_of body') (v mod 2 ^ 64)) = Ok bs /\
+    enum_post (class_of body) (v mod 2 ^ 64) = try_value (class_of body) v.
+Proof. exact C20GapB.enum_evolution_scalar. Qed.
+Print Assumptions C20_enum_evolution_scalar.
+
+(* JSON is open by NUMBER only: what a writer with definition body emits for v is read as v by a reader with body' EXACTLY when v has
+   no name in body, or its first name there is declared for v in body' too; otherwise from_dict raises (witness) *)
+Theorem C20_json_evolution_iff : forall body body' v,
+  from_json_el (class_of body') (to_json_el (class_of body) v) = Ok (try_value (class_of body') v) <->
+  (~ In v (map snd (members_of body)) \/
+   exists n0, first_name (members_of body) v = Some n0 /\ In (n0, v) (members_of body')).
+Proof. exact C20GapB.json_evolution_iff. Qed.
+Print Assumptions C20_json_evolution_iff.
+
+Theorem C20_json_evolution_refuted :
+  exists body body' v, int32 v /\ from_json_el (class_of body') (to_json_el (class_of body) v) = Err EValue.
+Proof. exact C20GapB.json_evolution_refuted. Qed.
+Print Assumptions C20_json_evolution_refuted.
+
+(* non-vacuity of the second group: a history  Cls(s=-1); m.r = [1, 5, -2^31]; m.m = {"k": 7}; m.a = 2^31-1; m.o; m.o = 0; copy; bytes; pickle
+   meets the operation conditions, and the object it produces holds named, alias, unnamed, negative and boundary numbers in all five positions *)
+Example C20_gapB_nonvacuous :
+  c01_schema_ok C20GapDefs.gap_schema = true /\
+  C01Reach.hist_ok C01Parse.op_value_ok_p C20GapDefs.gap_schema (new C20GapDefs.gap_schema 11) C20GapDefs.gap_hist = true /\
+  C01Reach.hist_ok C01Parse.op_reach_ok_p C20GapDefs.gap_schema (new C20GapDefs.gap_schema 11) C20GapDefs.gap_hist = true /\
+  c01_value_ok C20GapDefs.gap_schema (new C20GapDefs.gap_schema 11) = true /\ sow_ok C20GapDefs.gap_schema (new C20GapDefs.gap_schema 11) = true /\
+  match C07Ops.run7 C20GapDefs.gap_schema (new C20GapDefs.gap_schema 11) C20GapDefs.gap_hist with
+  | Ok m => ocls m = 11%nat /\
+            map (read C20GapDefs.gap_schema m) [0; 1; 2; 3; 4; 5]%nat =
+            [Ok (PInt (-1)); Ok (PList [PInt 1; PInt 5; PInt (-2147483648)]); Ok (PDict [(PStr [x6b], PInt 7)]);
+             Ok (PInt 2147483647); Err EAttribute; Ok (PInt 0)] /\
+            holds_enum PosRepeated (PList [PInt 1; PInt 5; PInt (-2147483648)]) 5 = true /\
+            holds_enum PosMapValue (PDict [(PStr [x6b], PInt 7)]) 7 = true /\
+            match enc_obj C20GapDefs.gap_schema m with
+            | Ok bs => Zlength bs = 40 /\ Len.len_obj C20GapDefs.gap_schema m = Ok 40 /\
+                       match History.pickle_rt C20GapDefs.gap_schema m with
+                       | Ok m' => map (read C20GapDefs.gap_schema m') [0; 1; 2; 3; 4; 5]%nat = map (read C20GapDefs.gap_schema m) [0; 1; 2; 3; 4; 5]%nat
+                       | Err _ => False
+                       end
+            | Err _ => False
+            end
+  | Err _ => False
+  end /\
+  map enum_position (cfields (get_class C20GapDefs.gap_schema 11)) =
+  [Some (PosSingular, 0%nat); Some (PosRepeated, 0%nat); Some (PosMapValue, 0%nat); Some (PosOneof, 0%nat); None; Some (PosOptional, 0%nat)] /\
+  scalar_in_range TString (PStr [x6b]) = true /\
+  c01_value_ok C20GapDefs.gap_schema (built C20GapDefs.gap_schema 11 2 PosMapValue (PStr [x6b]) (-1)) = true /\
+  c01_value_ok C20GapDefs.gap_schema (built C20GapDefs.gap_schema 11 2 PosMapValue (PStr [x6b]) (2 ^ 31)) = false /\
+  (* enum evolution: the reader only knows Z = 0; RED = 1 arrives as the number 1, "RED" is refused; 5 (unnamed) passes in JSON *)
+  enum_post (class_of [([x5a], 0)]) (1 mod 2 ^ 64) = (None, 1) /\
+  from_json_el (class_of [([x5a], 0)]) (to_json_el (class_of ex_body) 5) = Ok (None, 5) /\
+  from_json_el (class_of [([x5a], 0)]) (to_json_el (class_of ex_body) 1) = Err EValue.
+Proof. vm_compute. repeat split; reflexivity. Qed.
